@@ -631,6 +631,96 @@ class Interp:
         o = ordmap.get(id(st))
         return specs.get(o), o
 
+    MUTATORS = {"append", "extend", "insert", "pop", "remove", "clear", "update", "add", "discard", "setdefault",
+                "sort", "reverse", "fill", "popitem", "__setitem__"}
+
+    def loop_frame(self, st):
+        """names a loop body may change: assigned names, receivers of mutating method calls, bases of item stores;
+        plus whether the body stores into attributes (heap writes need an explicit frame in the spec)"""
+        cached = getattr(st, "_pyvc_frame", None)
+        if cached is not None:
+            return cached
+        names, heap = set(), []
+
+        def targets(t):
+            if isinstance(t, ast.Name):
+                names.add(t.id)
+            elif isinstance(t, (ast.Tuple, ast.List)):
+                for e in t.elts:
+                    targets(e)
+            elif isinstance(t, ast.Starred):
+                targets(t.value)
+            elif isinstance(t, ast.Subscript):
+                b = t.value
+                while isinstance(b, (ast.Subscript, ast.Attribute)):
+                    b = b.value
+                if isinstance(b, ast.Name):
+                    names.add(b.id)
+                if isinstance(t.value, ast.Attribute):
+                    heap.append(ast.unparse(t))
+            elif isinstance(t, ast.Attribute):
+                heap.append(ast.unparse(t))
+
+        def walk(n):
+            for c in ast.iter_child_nodes(n):
+                if isinstance(c, (ast.FunctionDef, ast.Lambda, ast.ClassDef)):
+                    continue
+                if isinstance(c, ast.Assign):
+                    for t in c.targets:
+                        targets(t)
+                elif isinstance(c, (ast.AugAssign, ast.AnnAssign)):
+                    targets(c.target)
+                elif isinstance(c, ast.For):
+                    targets(c.target)
+                elif isinstance(c, ast.NamedExpr):
+                    targets(c.target)
+                elif isinstance(c, ast.Delete):
+                    for t in c.targets:
+                        targets(t)
+                elif isinstance(c, ast.Call) and isinstance(c.func, ast.Attribute) and c.func.attr in self.MUTATORS:
+                    b = c.func.value
+                    if isinstance(b, ast.Name):
+                        names.add(b.id)
+                    elif isinstance(b, ast.Attribute):
+                        heap.append(ast.unparse(c.func))
+                walk(c)
+        for b in st.body:
+            walk(ast.Module(body=[b], type_ignores=[]))
+        if isinstance(st, ast.For):
+            targets(st.target)
+        st._pyvc_frame = (names, heap)
+        return st._pyvc_frame
+
+    def fresh_like(self, ctx, v, name):
+        from . import nparr
+        from . import builtins_ as B
+        if isinstance(v, bool) or (isinstance(v, Sym) and v.kind == "bool"):
+            return Sym(ctx.fresh_bool("hv_" + name))
+        if isinstance(v, int) or (isinstance(v, Sym) and v.kind == "int"):
+            return Sym(ctx.fresh_int("hv_" + name))
+        if isinstance(v, float) or (isinstance(v, Sym) and v.kind == "real"):
+            return Sym(ctx.fresh_real("hv_" + name))
+        if isinstance(v, nparr.NArr):
+            f = z3.Function(ctx.fresh_name("hv_" + name), z3.IntSort(), z3.RealSort())
+            n = ctx.fresh_int("hv_len_" + name)
+            ctx.assume(n >= 0)
+            return nparr.NArr(n, lambda i, f=f: Sym(f(B._z(i))), v.dtype, "havoc")
+        if isinstance(v, TupleVal) and all(not isinstance(x, (Obj, ListVal, DictVal)) for x in v.items):
+            return TupleVal([self.fresh_like(ctx, x, name) if not isinstance(x, (EnumMember, str, type(None))) else x for x in v.items], v.cls)
+        if isinstance(v, Opaque) and v.e is not None:
+            return Opaque(ctx.fresh_const("hv_" + name, v.e.sort()), v.tag, v.attrs)
+        return Opaque(None, "havoc:" + name, {})
+
+    def enforce_havoc(self, ctx, env, st, spec, before, o):
+        """every variable the body may change must have been replaced by the spec's havoc; the rest is havoc'd here
+        (so an invariant silent about a changed variable cannot make a proof go through)"""
+        names, heap = self.loop_frame(st)
+        if heap and not getattr(spec, "heap_frame", None):
+            raise PyvcError(f"loop {o} at {ctx.where} writes to the heap ({', '.join(heap[:3])}) but its spec declares no heap_frame")
+        for n in sorted(names):
+            if n in env.vars and n in before and env.vars[n] is before[n] and not n.startswith("__"):
+                env.vars[n] = self.fresh_like(ctx, before[n], n)
+
     def s_While(self, ctx, env, st):
         spec, o = self.loop_spec_for(env, st)
         if spec is None:
@@ -650,7 +740,9 @@ class Interp:
         where = ctx.where
         for name, f in spec.invariant(ctx, self, env.vars):
             ctx.oblige(f"loop{o}.entry.{name}", f, kind="invariant")
+        before = dict(env.vars)
         spec.havoc(ctx, self, env.vars)
+        self.enforce_havoc(ctx, env, st, spec, before, o)
         for name, f in spec.invariant(ctx, self, env.vars):
             ctx.assume(f)
         if self.truth(ctx, self.eval_cond(ctx, env, st.test)):
@@ -661,6 +753,8 @@ class Interp:
             except ContinueSig:
                 pass
             ctx.where = where
+            if getattr(spec, "step", None):
+                spec.step(ctx, self, env.vars)
             for name, f in spec.invariant(ctx, self, env.vars):
                 ctx.oblige(f"loop{o}.preserved.{name}", f, kind="invariant")
             raise PathEnd()
@@ -694,7 +788,9 @@ class Interp:
         ctx.assume(k >= 0)
         ctx.assume(k <= seq.length)
         env.vars[kname] = Sym(k)
+        before = dict(env.vars)
         spec.havoc(ctx, self, env.vars)
+        self.enforce_havoc(ctx, env, st, spec, before, o)
         for name, f in spec.invariant(ctx, self, env.vars):
             ctx.assume(f)
         if ctx.branch(k < seq.length):
